@@ -221,9 +221,8 @@ var (
 // c17Ops returns the operations whose traces must not depend on the secret.
 func c17Ops() []c17Op {
 	n := bigN
-	// computed on first use (always inside a prep, never inside a traced closure): the
-	// memory-access monitor starts one process per secret and pays for everything that
-	// runs before the traced region
+	// computed on first use (always inside a prep, never inside a traced closure): probes
+	// that run one operation per process pay for everything that runs before it
 	var pubPtsMemo [3]*oracle.Pt
 	pubPt := func(i int) *oracle.Pt {
 		if pubPtsMemo[i] == nil {
@@ -659,101 +658,4 @@ func CTProbe(seed int64, tier string, only map[int]bool) []CTPlanEntry {
 		}
 	}
 	return plan
-}
-
-// --- memory-access trace monitor (bin/memtrace.py, cmd/memprobe, cmd/memfilt) -----------------
-
-// MemPlanEntry is one (operation, variant) with the secrets the memory-access
-// monitor runs it for, one process per secret.
-type MemPlanEntry struct {
-	Name    string   `json:"name"`
-	Variant int      `json:"variant"`
-	Cost    int      `json:"cost"`
-	Classes []string `json:"classes"`
-	Values  []string `json:"values"`
-}
-
-// MemPlan selects the secrets per operation: valgrind executes about a million
-// instructions per second, so every operation is affordable, for a handful of
-// secrets each (quick) or a few dozen (thorough).
-func MemPlan(seed int64, tier string) []MemPlanEntry {
-	per, nRandom := 6, 4
-	if tier == "thorough" {
-		per, nRandom = 24, 16
-	}
-	secrets := c17Secrets(seed, nRandom)
-	// a spread over the classes: boundary values, nibble patterns, steered windows, random
-	pref := []string{"n-1", "random", "1", "pattern-0f", "halfN+1", "pattern-f0", "2", "n-2", "pattern-55", "pattern-aa", "halfN", "00..ff..", "16", "3", "pattern-80", "pattern-7f", "pattern-01", "pattern-10"}
-	var plan []MemPlanEntry
-	for _, o := range c17Ops() {
-		for v := 0; v < o.vars; v++ {
-			if (v > 0 && tier != "thorough") || o.cost >= 3 {
-				continue
-			}
-			e := MemPlanEntry{Name: o.name, Variant: v, Cost: o.cost}
-			seen := map[string]bool{}
-			add := func(s c17Secret) {
-				k := fmt.Sprintf("%x", s.v)
-				if len(e.Values) >= per || seen[k] || (s.v.Sign() == 0 && !o.zeroOK) {
-					return
-				}
-				seen[k] = true
-				e.Classes = append(e.Classes, s.class)
-				e.Values = append(e.Values, k)
-			}
-			if o.zeroOK {
-				add(secrets[0])
-			}
-			for _, cl := range pref {
-				for _, s := range secrets {
-					if s.class == cl {
-						add(s)
-						break
-					}
-				}
-			}
-			// then the steered classes and whatever is left, in order
-			for _, s := range secrets {
-				if len(s.class) > 7 && (s.class[:7] == "stored-" || s.class[:7] == "glv-win" || s.class[:7] == "equals-") {
-					add(s)
-				}
-			}
-			for _, s := range secrets {
-				add(s)
-			}
-			plan = append(plan, e)
-		}
-	}
-	return plan
-}
-
-// MemProbe runs one (operation, variant, secret): twice untraced (first-use set-up,
-// stack growth), then once between the markers.  It returns the published-output
-// shape of the call (traces are only comparable within one shape).
-func MemProbe(name string, variant int, secretHex, class string) (string, error) {
-	v, ok := new(big.Int).SetString(secretHex, 16)
-	if !ok {
-		return "", fmt.Errorf("bad secret %q", secretHex)
-	}
-	// the stored value always has four words, whatever the secret: the harness' own
-	// allocations must not depend on the secret
-	v = new(big.Int).SetBytes(v.FillBytes(make([]byte, 32)))
-	s := c17Secret{v: v, class: class}
-	for _, o := range c17Ops() {
-		if o.name != name {
-			continue
-		}
-		sh := ""
-		if o.shape != nil {
-			sh = o.shape(s, variant)
-		}
-		o.prep(s, variant)()
-		o.prep(s, variant)()
-		f := o.prep(s, variant)
-		CTTraceBegin(0, 0, 0)
-		f()
-		CTTraceEnd()
-		return sh, nil
-	}
-	return "", fmt.Errorf("no operation %q", name)
 }
